@@ -330,9 +330,36 @@ func wantFor(rd reqDef, prime map[string]string) result { return fresh(rd, prime
 
 func (h *histInst) Obs() string { return fmt.Sprintf("%v|%s", h.last, h.state) }
 
+// ownExtension: the "seen" extension of a response is written by the server's response
+// middleware from the request's OWN X-Verif header - an absolute oracle that needs no
+// reference server (state leaked into process-wide variables corrupts references too).
+func ownExtension(rd reqDef, r result) string {
+	var body struct {
+		Extensions map[string]any `json:"extensions"`
+	}
+	if json.Unmarshal([]byte(r.Body), &body) != nil {
+		return ""
+	}
+	seen, has := body.Extensions["seen"]
+	want := rd.build().Header.Get("X-Verif")
+	if rd.Name == "post-headers-member" {
+		return "" // a request naming headers in its body is judged by the reference comparison only
+	}
+	if want == "" && has {
+		return fmt.Sprintf("request %s carries no X-Verif header but its response has extensions.seen=%v", rd.Name, seen)
+	}
+	if want != "" && has && seen != want {
+		return fmt.Sprintf("request %s carries X-Verif=%q but its response has extensions.seen=%v", rd.Name, want, seen)
+	}
+	return ""
+}
+
 func (h *histInst) Check(x *explore.Exec) (string, string) {
 	if x.Out.Kind != "quiescent" {
 		return "history:" + x.Out.Kind, x.Out.Crash + fmt.Sprint(x.Out.Blocked)
+	}
+	if msg := ownExtension(h.defs[len(h.defs)-1], h.last); msg != "" {
+		return "history:extension-not-from-own-request:" + h.names[len(h.names)-1], fmt.Sprintf("history %v\n  %s", h.names, msg)
 	}
 	if h.last != h.want {
 		return "history:response-depends-on-history:" + h.names[len(h.names)-1], fmt.Sprintf("history %v\n  fresh server: %v\n  this server:  %v\n  state %s", h.names, h.want, h.last, h.state)
@@ -384,6 +411,11 @@ func (p *pairInst) Obs() string { return fmt.Sprint(p.got) }
 func (p *pairInst) Check(x *explore.Exec) (string, string) {
 	if x.Out.Kind != "quiescent" {
 		return "concurrent:" + x.Out.Kind, x.Out.Crash + fmt.Sprint(x.Out.Blocked)
+	}
+	for i := range p.defs {
+		if msg := ownExtension(p.defs[i], p.got[i]); msg != "" {
+			return "concurrent:extension-not-from-own-request:" + p.names[i], fmt.Sprintf("requests %v in flight together\n  %s", p.names, msg)
+		}
 	}
 	for i := range p.defs {
 		w := p.want[i]
